@@ -160,6 +160,7 @@ def run_cases(ctx, n_cases):
                     uu, vv = rng.choice([-1, 1]) * rng.uniform(1.2, 2.5) * old_area[2], rng.uniform(-1, 1) * bb
                 else:
                     uu, vv = rng.uniform(-0.5, 0.5) * old_area[2], rng.uniform(-0.5, 0.5) * bb
+                prev_ego = ego
                 if rng.random() < 0.3:
                     ego = (ego[0] + rng.randrange(-3000, 3001), ego[1] + rng.randrange(-3000, 3001))
                 else:
@@ -172,7 +173,7 @@ def run_cases(ctx, n_cases):
                     add_rx(old_area, old_kind, "moved", "_area_reused")
                     add_rx(old_area, "gac" if old_kind == "gbc" else "gbc", "moved", "_area_reused")
                 else:
-                    ego = (meta[-2][3] if meta[-2] else egos[batch % len(egos)])
+                    ego = prev_ego            # no move after all: the station stays where it is
         if batch % 3 == 0:
             # rectangles of exactly the maximum size, one octet more and one less (last in the batch: the model comparison
             # stops at a size within 1 m2 of the limit, the oracle does not)
